@@ -27,6 +27,9 @@ def run_store(prop, theorems, focus_rule, oracles, quick=(30, 25, 8), thorough=(
             h = hists[0]
             c.sample({'history': [l[:110] for l in h['lines'] if l[:3] in ('NEW', 'STO', 'REM', 'VAN', 'OPN', 'RBD', 'XPT')][:8],
                       'replies': [h['w'][st['li']][:30] for st in h['steps']][:8]})
+        if prop == 'C09':
+            from .. import sweeps
+            sweeps.knd_sweep(c)
         if extra:
             extra(c, r)
     finally:
